@@ -88,6 +88,12 @@ InitAnnounce == /\ mode = "bytes"
                 /\ val = 0
                 /\ \E k \in 0..61, f \in {<<>>, <<1>>, <<1, 1>>, <<0, 0, 0, 0>>} : bs = EncVarUInt(Pow2Digits(k)).bytes \o f
 
+\* tagged-field streams for Decoder::skip_tagged_fields: a tag (any variable-width integer of the value sets, so also
+\* 8-byte tags outside the 32-bit range, which must be refused), a size, that many bytes, then an end marker or nothing
+InitTagged == /\ mode = "bytes" /\ ty = "tagged" /\ val = 0
+              /\ \E tg \in {v \in Both : EncVarInt(v).ok}, sz \in 0..2, tail \in {<<>>, <<252>>, <<253, 255>>, <<4, 0, 252>>} :
+                    bs = EncVarInt(tg).bytes \o EncVarUInt(FromNat(sz)).bytes \o [j \in 1..sz |-> 170] \o tail
+
 Next == UNCHANGED vars
 Spec == InitValues /\ [][Next]_vars
 
